@@ -424,7 +424,9 @@ func RunDup(c DupCase) error {
 	if b.depth >= 2 || b.respelled {
 		fp := cov.FP([]byte(sig), b.text, []byte{byte(c.Variant)})
 		rec.NonTrivial(fp)
-		rec.Sample(fp, func() any { return map[string]any{"type": sig, "text": string(b.text), "target": b.kind, "spelling": b.why, "merged": string(b.merged)} })
+		rec.Sample(fp, func() any {
+			return map[string]any{"type": sig, "text": string(b.text), "target": b.kind, "spelling": b.why, "merged": string(b.merged)}
+		})
 	}
 
 	// 1. default options: must be rejected
